@@ -10,7 +10,8 @@
    first.  [cnt l h] counts occurrences of label l. *)
 From Coq Require Import List Arith Bool ZArith.
 From Verif Require Import lib.Wire c06.Model c06.Spec c06.Proofs_base c06.Proofs_main c06.Proofs_thms
-                          c06.Proofs_accept gen.Consts_c06.
+                          c06.Proofs_accept gen.Consts_c06
+                          c06.SpecSw c06.SwModel c06.SwProofs_base c06.SwProofs_quiet.
 Import ListNotations.
 
 (* THE property on traces: the monitor that judges the implementation's traces
@@ -101,6 +102,61 @@ Theorem last_event_truthful : forall cap sched s,
 Proof. exact last_event_truthful_l. Qed.
 Print Assumptions last_event_truthful.
 
+(* ---- swarm level (SwModel.v): the emitter LTS under the discipline of swarm.go / swarm_conn.go ----
+   [srun cap sinit xs = Some ss]: xs is a schedule of the swarm-level LTS: Swarm.addConn threads (conns-lock
+   section with the closed check, insert + two refs, the window before AddConn, AddConn, c.start(), the
+   AcceptStream loop), doClose threads (removeConn, transport Close begin/end, the notification goroutine),
+   Swarm.Close (nil the table, close every conn, refs.Wait, emitter Close), interleaved arbitrarily with every
+   step of the emitter LTS.  [vobs xs]: what the swarm's observer sees, most recent first. *)
+
+(* every swarm-level schedule is a schedule of the emitter LTS (so all theorems above apply to it) *)
+Theorem c06_swarm_refines_emitter : forall cap xs ss,
+  srun cap sinit xs = Some ss -> exec cap (bobs_of xs []) (base ss).
+Proof. exact srun_refines. Qed.
+Print Assumptions c06_swarm_refines_emitter.
+
+(* THE swarm-level property on traces: the monitor of SpecSw.v (run on the implementation's swarm-level
+   traces) accepts the observable trace of every swarm-level schedule *)
+Theorem c06_swarm_monitor_accepts_every_schedule : forall cap xs ss,
+  srun cap sinit xs = Some ss -> vholds_from (vobs xs) = [].
+Proof. exact vholds_srun. Qed.
+Print Assumptions c06_swarm_monitor_accepts_every_schedule.
+
+(* Swarm.Close returns only after every admitted conn was announced and retired exactly once *)
+Theorem swarm_close_waits_for_admitted_conns : forall cap xs ss c,
+  srun cap sinit xs = Some ss -> x_pc ss = XRetP \/ x_pc ss = XDone -> c < nconns (base ss) ->
+  vcnt (VConnB c) (vobs xs) = 1 /\ vcnt (VConnE c) (vobs xs) = 1 /\
+  vcnt (VDiscB c) (vobs xs) = 1 /\ vcnt (VDiscE c) (vobs xs) = 1.
+Proof. exact swarm_close_delivers. Qed.
+Print Assumptions swarm_close_waits_for_admitted_conns.
+
+(* ... where a conn that was seen listed in Conns(), or announced, is an admitted one *)
+Theorem listed_conn_is_admitted : forall cap xs ss c, srun cap sinit xs = Some ss ->
+  In (VSeen c) (vobs xs) \/ In (VConnB c) (vobs xs) -> c < nconns (base ss).
+Proof. exact seen_listed_admitted. Qed.
+Print Assumptions listed_conn_is_admitted.
+
+(* Disconnected(c) begins only after the transport-level Close of c has returned (and after Connected returned) *)
+Theorem disconnected_after_transport_close : forall cap xs ss c post pre,
+  srun cap sinit xs = Some ss -> vobs xs = post ++ VDiscB c :: pre -> In (VTCloseE c) pre /\ In (VConnE c) pre.
+Proof. exact disconnected_after_transport_close_l. Qed.
+Print Assumptions disconnected_after_transport_close.
+
+(* once a closed swarm is quiescent the last event published for every peer is NotConnected *)
+Theorem closed_swarm_last_events_notconnected : forall cap xs ss p, srun cap sinit xs = Some ss ->
+  squiescent ss = true -> x_pc ss = XDone -> vlastpub p (vobs xs) = NotConnected.
+Proof. exact closed_swarm_final_events_l. Qed.
+Print Assumptions closed_swarm_last_events_notconnected.
+
+(* quiescent, Swarm.Close never called: the last event of every peer is its connectedness as the observer
+   computes it from Stat().Limited of the conns addConn returned and that were not closed - and that is the
+   connectedness of the model's conn table *)
+Theorem open_swarm_last_events_truthful : forall cap xs ss p, srun cap sinit xs = Some ss ->
+  squiescent ss = true -> x_pc ss = X0 ->
+  vlastpub p (vobs xs) = vactual (vobs xs) p /\ vactual (vobs xs) p = connectedness (base ss) p.
+Proof. exact open_swarm_final_events_l. Qed.
+Print Assumptions open_swarm_last_events_truthful.
+
 (* regenerated obligation: the three connectedness values the wire format uses are distinct and the
    zero value of network.Connectedness (what a missing lastConnectednessEvent entry reads as) is NotConnected *)
 Theorem c06_connectedness_consts :
@@ -151,4 +207,38 @@ Proof. vm_compute. discriminate. Qed.
 Example monitor_rejects_missing_disconnect :
   holds_from (rev [Reg 0 7 false; AddCall 0; ConnB 0; ConnE 0; AddRet 0; Read 7 Connected; Pub 7 Connected;
                    Unreg 0; RemCall 0; RemRet 0; Read 7 NotConnected; Pub 7 NotConnected; Quiesce]) <> [].
+Proof. vm_compute. discriminate. Qed.
+
+(* ---- swarm level: non-vacuity -------------------------------------------------------------------- *)
+Definition sw_lifecycle : list xlabel :=
+  [XS (SAddCall 0 7 false true); XB (Reg 0 7 false); XB (AddCall 0); XB (AChk 0); XB (AEnq 0); XB (ConnB 0); XB (ConnE 0);
+   XB (ALock 0); XB (AFin 0); XB (AddRet 0); XS (SStart 0); XS (SAccept 0); XS (SAddRet 0 true); XB LDeq;
+   XB (Read 7 Connected); XB (Pub 7 Connected); XS SCloseCall; XS SNilBegin; XB (Unreg 0); XS SNilEnd; XS (SDBegin 0);
+   XS (SDSkip 0); XS (STCloseB 0); XS (STCloseE 0); XS (SDSpawn 0); XB (RemCall 0); XB (RChk 0); XB (REnq 0);
+   XB (RLock 0); XB (DiscB 0); XB (DiscE 0); XB (RFin 0); XB (RemRet 0); XS (SGDone 0); XS (SLoopEnd 0); XS (SLoopDone 0);
+   XS SWaited; XB CloseCall; XB CSet; XB CWaited; XB LDeq; XB (Read 7 NotConnected); XB (Pub 7 NotConnected); XB CCancel;
+   XB LDrain; XB LExit; XB CJoined; XB CloseRet; XS SCloseRet; XS (SObsConn 7 NotConnected); XS SQuiesce].
+Example swarm_lifecycle_reachable :
+  exists ss, srun 32 sinit sw_lifecycle = Some ss /\ x_pc ss = XDone /\ squiescent ss = true /\ refs ss = 0.
+Proof. eexists. split; [vm_compute; reflexivity|]. repeat split. Qed.
+(* Swarm.Close cannot pass refs.Wait while an admitted conn sits in the window before AddConn *)
+Example swarm_close_blocks_on_window :
+  srun 32 sinit [XS (SAddCall 0 7 false false); XB (Reg 0 7 false); XS SCloseCall; XS SNilBegin; XB (Unreg 0); XS SNilEnd;
+                 XS (SDBegin 0); XS (SDSkip 0); XS (STCloseB 0); XS (STCloseE 0); XS (SDSpawn 0); XB (RemCall 0); XB (RChk 0);
+                 XB (REnq 0); XB (RLock 0); XB (RFin 0); XB (RemRet 0); XS (SGDone 0); XS SWaited] = None.
+Proof. vm_compute. reflexivity. Qed.
+(* the swarm-level monitor rejects: Swarm.Close returning before a listed conn was announced; Disconnected while the
+   transport conn is still open; a relayed-unlimited conn published as Limited; a peer left Connected after Close *)
+Example swmonitor_rejects_early_swarm_close :
+  vholds_from (rev [VAddCall 0 7 false false; VSeen 0; VCloseCall; VTCloseB 0; VTCloseE 0; VCloseRet]) <> [].
+Proof. vm_compute. discriminate. Qed.
+Example swmonitor_rejects_disconnect_before_transport_close :
+  vholds_from (rev [VAddCall 0 7 false false; VConnB 0; VConnE 0; VAddRet 0 true; VCloseReq 0; VTCloseB 0; VDiscB 0]) <> [].
+Proof. vm_compute. discriminate. Qed.
+Example swmonitor_rejects_unlimited_relayed_as_limited :
+  vholds_from (rev [VAddCall 0 7 false true; VConnB 0; VConnE 0; VAddRet 0 true; VPub 7 Limited; VQuiesce]) <> [].
+Proof. vm_compute. discriminate. Qed.
+Example swmonitor_rejects_connected_after_close :
+  vholds_from (rev [VAddCall 0 7 false false; VConnB 0; VConnE 0; VAddRet 0 true; VPub 7 Connected; VCloseCall; VTCloseB 0;
+                    VTCloseE 0; VDiscB 0; VDiscE 0; VCloseRet; VQuiesce]) <> [].
 Proof. vm_compute. discriminate. Qed.
